@@ -35,7 +35,7 @@ def main(tier):
                        'that all time-indexed datasets get one record per append is C10-G1; that each record equals the uninterrupted run\'s follows from the loop being deterministic and the prefix property of the explored path tree (same decisions, same events)',
                        'calls are events (callee + arguments); their effects on the file come from the C10 summaries']
     chk.stubs = ['every call in main that is not arithmetic: event returning a fresh value (const std:: helpers memoised on their arguments)', 'volatile read of Display::abort: fresh monotone boolean']
-    chk.add(run_jobs(jobs, budget=1500 if tier == 'quick' else 6000))
+    _rs = run_jobs(jobs, budget=1500 if tier == 'quick' else 6000); _rs.append(mainloop.loop_witness(_rs, 'C14')); chk.add(_rs)
     chk.finish()
 
 if __name__ == '__main__':
